@@ -34,7 +34,7 @@ def main() -> int:
                     gaps = s.extract()
                     if gaps:
                         print(f"[setup] {s.pid}: translator gaps: {gaps}")
-                targets += s.proof_modules + [s.driver]
+                targets += s.proof_modules + list(getattr(s, 'soft_proof_modules', [])) + [s.driver]
                 harness_jobs.append((s.pid, s.harness))
             if hasattr(m, "setup_targets"):
                 targets += m.setup_targets()
